@@ -10,6 +10,9 @@ use std::collections::BTreeMap;
 use std::path::Path;
 use syn::visit::Visit;
 
+/// methods with a documented panic contract (Option/Result unwrapping, fixed-size copies, time-zone conversion, index-taking Vec operations)
+const PANICKING_METHODS: [&str; 11] = ["unwrap", "expect", "clone_from_slice", "copy_from_slice", "split_at", "unwrap_unchecked", "to_offset", "to_utc", "swap_remove", "split_off", "drain"];
+
 struct V { file: String, func: Vec<String>, sites: Vec<(String, String, String, String)> }
 
 fn norm(t: impl ToTokens) -> String { t.to_token_stream().to_string().split_whitespace().collect::<Vec<_>>().join(" ") }
@@ -33,7 +36,7 @@ impl<'ast> Visit<'ast> for V {
     fn visit_trait_item_fn(&mut self, f: &'ast syn::TraitItemFn) { self.func.push(f.sig.ident.to_string()); syn::visit::visit_trait_item_fn(self, f); self.func.pop(); }
     fn visit_expr_method_call(&mut self, m: &'ast syn::ExprMethodCall) {
         let n = m.method.to_string();
-        if ["unwrap", "expect", "clone_from_slice", "copy_from_slice", "split_at", "unwrap_unchecked"].contains(&n.as_str()) { self.add(&n, norm(&m.receiver)); }
+        if PANICKING_METHODS.contains(&n.as_str()) { self.add(&n, norm(&m.receiver)); }
         syn::visit::visit_expr_method_call(self, m);
     }
     fn visit_expr_call(&mut self, c: &'ast syn::ExprCall) {
@@ -49,6 +52,27 @@ impl<'ast> Visit<'ast> for V {
         // look inside expression-list macros (vec!, format!, json!, matches!, ...): their arguments are ordinary expressions
         if let Ok(args) = m.parse_body_with(syn::punctuated::Punctuated::<syn::Expr, syn::Token![,]>::parse_terminated) {
             for e in args.iter() { self.visit_expr(e); }
+        } else {
+            // a macro body that is not an expression list (macro_rules! definitions, custom syntax): scan its tokens
+            fn scan(ts: proc_macro2::TokenStream, hits: &mut Vec<String>) {
+                let toks: Vec<proc_macro2::TokenTree> = ts.into_iter().collect();
+                for (i, t) in toks.iter().enumerate() {
+                    match t {
+                        proc_macro2::TokenTree::Group(g) => scan(g.stream(), hits),
+                        proc_macro2::TokenTree::Ident(id) => {
+                            let n = id.to_string();
+                            let after_dot = i > 0 && matches!(&toks[i - 1], proc_macro2::TokenTree::Punct(p) if p.as_char() == '.');
+                            let before_bang = matches!(toks.get(i + 1), Some(proc_macro2::TokenTree::Punct(p)) if p.as_char() == '!');
+                            if after_dot && PANICKING_METHODS.contains(&n.as_str()) { hits.push(n); }
+                            else if before_bang && ["panic", "unreachable", "assert", "assert_eq", "assert_ne", "todo", "unimplemented"].contains(&n.as_str()) { hits.push(format!("{n}!")); }
+                        }
+                        _ => {}
+                    }
+                }
+            }
+            let mut hits = vec![];
+            scan(m.tokens.clone(), &mut hits);
+            for h in hits { self.add(&format!("macro_body_{h}"), format!("inside {}!", n)); }
         }
         syn::visit::visit_macro(self, m);
     }
